@@ -134,3 +134,366 @@ Section Conn.
     exists [S (S (S (S (S n0)))); S (S (S (S n0))); S (S (S n0)); S (S n0); S n0; n0]. split; reflexivity.
   Qed.
 End Conn.
+
+(* ------------------------------------------------------------------------------------ *)
+(* ares_send_query                                                                       *)
+(* ------------------------------------------------------------------------------------ *)
+Lemma remove_z_notin x l : ~ In x l -> remove_z x l = l.
+Proof.
+  unfold remove_z. induction l as [|y l IH]; simpl; intros H; [reflexivity|].
+  destruct (Z.eqb_spec x y) as [->|Hne]; simpl; [exfalso; apply H; left; reflexivity|].
+  f_equal. apply IH. tauto.
+Qed.
+
+Lemma remove_z_cons_same x l : remove_z x (x :: l) = remove_z x l.
+Proof. unfold remove_z. simpl. rewrite Z.eqb_refl. reflexivity. Qed.
+
+Lemma remove_z_app_same x l : remove_z x (l ++ [x]) = remove_z x l.
+Proof. unfold remove_z. rewrite filter_app. simpl. rewrite Z.eqb_refl. simpl. apply app_nil_r. Qed.
+
+Lemma upd_conn_length l i g : length (upd_conn l i g) = length l.
+Proof.
+  unfold upd_conn. destruct (nth_error l i) as [c|] eqn:En; [|reflexivity].
+  assert (i < length l) by (apply nth_error_Some; congruence).
+  rewrite app_length. cbn [length]. rewrite firstn_length, skipn_length. lia.
+Qed.
+
+Ltac side := try solve [ assumption | reflexivity | discriminate | simpl; lia
+                        | apply heap_ok_skip; assumption | auto ].
+
+Section SendQuery.
+  Variable f : oracle.
+  Variable E : env.
+  Variable nconn0 : nat.     (* connections that exist when the request is submitted *)
+  Hypothesis Hreuse : forall att i, e_reuse E att = Some i -> i < nconn0.
+  Hypothesis Hwrite : forall att, e_write E att <> ARES_ECONNREFUSED /\ e_write E att <> ARES_EBADFAMILY.
+
+  Definition sq_pre (ch : chan) (q : query) (h : heap) : Prop :=
+    heap_ok h /\ q_inv q h /\ q_tmo q = None /\ q_cqn q = None /\
+    nconn0 <= length (ch_conns ch) /\ ~ In (q_qid q) (ch_bytmo ch).
+
+  (* same query object, possibly other try counter / error status *)
+  Definition same_query (q q' : query) : Prop :=
+    q_qid q' = q_qid q /\ q_blk q' = q_blk q /\ q_rec q' = q_rec q /\ q_name q' = q_name q /\
+    q_all q' = q_all q /\ q_qide q' = q_qide q.
+
+  Definition sq_post (ch : chan) (q : query) (cbs : list Z) (h : heap) (r : result) (h' : heap) : Prop :=
+    heap_ok h' /\ h_next h <= h_next h' /\
+    length (ch_conns ch) <= length (ch_conns (r_chan r)) /\
+    (forall c, In c (ch_conns (r_chan r)) -> In c (ch_conns ch) \/ cn_queries c = [] \/ r_query r <> None) /\
+    match r_query r with
+    | None =>
+      (* ended: exactly one more callback, with a failure status; no trace of the query *)
+      (exists st, r_cbs r = cbs ++ [st] /\ st <> ARES_SUCCESS) /\ r_status r <> ARES_SUCCESS /\
+      ch_all (r_chan r) = (match q_all q with Some _ => remove_z (q_qid q) (ch_all ch) | None => ch_all ch end) /\
+      ch_byqid (r_chan r) = (match q_qide q with Some _ => remove_z (q_qid q) (ch_byqid ch) | None => ch_byqid ch end) /\
+      ch_bytmo (r_chan r) = ch_bytmo ch /\
+      length (h_live h') + length (qblocks q) + 6 * length (ch_conns ch)
+        = length (h_live h) + 6 * length (ch_conns (r_chan r))
+    | Some q' =>
+      (* registered: no callback, the query sits in the timeout list and on one connection *)
+      r_cbs r = cbs /\ r_status r = ARES_SUCCESS /\ same_query q q' /\ q_inv q' h' /\
+      ch_all (r_chan r) = ch_all ch /\ ch_byqid (r_chan r) = ch_byqid ch /\
+      ch_bytmo (r_chan r) = q_qid q :: ch_bytmo ch /\
+      (exists tn ci nb c, q_tmo q' = Some tn /\ q_cqn q' = Some (ci, nb) /\
+                          nth_error (ch_conns (r_chan r)) ci = Some c /\ In (q_qid q, nb) (cn_queries c)) /\
+      length (h_live h') + length (qblocks q) + 6 * length (ch_conns ch)
+        = length (h_live h) + length (qblocks q') + 6 * length (ch_conns (r_chan r))
+    end.
+
+  Lemma remove_from_conn_detached ch q h :
+    q_tmo q = None -> q_cqn q = None -> remove_from_conn ch q h = Ok ((ch, q), h).
+  Proof.
+    intros Ht Hc. unfold remove_from_conn. rewrite Ht, Hc.
+    unfold free_opts, bindM, ret. simpl.
+    destruct ch; destruct q; simpl in *; subst; reflexivity.
+  Qed.
+
+  Lemma q_inv_mono q h h1 : q_inv q h -> (forall x, In x (h_live h) -> In x (h_live h1)) -> q_inv q h1.
+  Proof. intros [Hn Hi] Hsub. split; [exact Hn|]. intros x Hx. apply Hsub. apply Hi. exact Hx. Qed.
+
+  (* the common tail of every failing branch: end_query on a query whose blocks are live *)
+  Lemma ended_post ch q cbs h ch1 qx st h1 :
+    heap_ok h1 -> h_next h <= h_next h1 -> q_inv qx h1 -> st <> ARES_SUCCESS ->
+    q_qid qx = q_qid q -> q_all qx = q_all q -> q_qide qx = q_qide q -> q_cqn qx = None ->
+    ch_all ch1 = ch_all ch -> ch_byqid ch1 = ch_byqid ch ->
+    ~ In (q_qid q) (ch_bytmo ch) ->
+    ((q_tmo qx = None /\ ch_bytmo ch1 = ch_bytmo ch) \/
+     (exists tn, q_tmo qx = Some tn /\ ch_bytmo ch1 = q_qid q :: remove_z (q_qid q) (ch_bytmo ch))) ->
+    length (ch_conns ch) <= length (ch_conns ch1) ->
+    (forall c, In c (ch_conns ch1) -> In c (ch_conns ch) \/ cn_queries c = []) ->
+    length (h_live h1) + length (qblocks q) + 6 * length (ch_conns ch)
+      = length (h_live h) + length (qblocks qx) + 6 * length (ch_conns ch1) ->
+    exists r h', end_query ch1 qx st cbs h1 = Ok (r, h') /\ r_status r = st /\ r_query r = None /\
+                 sq_post ch q cbs h r h'.
+  Proof.
+    intros Hok1 Hnx Hq Hst Hid Hall Hqide Hcqn Hca Hcb Habs Htmo Hlen Hconns Hled.
+    destruct (end_query_spec ch1 qx st cbs h1 Hok1 Hq) as (h2 & Hr & Hok2 & Hn2 & Hl2).
+    eexists; eexists. split; [exact Hr|]. split; [reflexivity|]. split; [reflexivity|].
+    unfold sq_post. cbn [r_query r_cbs r_status r_chan].
+    unfold free_query_chan, unlink_conn. rewrite Hcqn. cbn [ch_all ch_byqid ch_bytmo ch_conns].
+    split; [exact Hok2|]. split; [lia|]. split; [exact Hlen|].
+    split; [intros c Hc; apply Hconns in Hc; tauto|].
+    split; [exists st; split; [reflexivity | exact Hst]|]. split; [exact Hst|].
+    rewrite Hid, Hall, Hqide, Hca, Hcb.
+    split; [reflexivity|]. split; [reflexivity|]. split.
+    - destruct Htmo as [[Ht Hb]|[tn [Ht Hb]]]; rewrite Ht, Hb; [reflexivity|].
+      rewrite remove_z_cons_same. rewrite !(remove_z_notin (q_qid q) (ch_bytmo ch) Habs). reflexivity.
+    - lia.
+  Qed.
+
+  Lemma qblocks_same q q' :
+    same_query q q' -> q_tmo q' = q_tmo q -> q_cqn q' = q_cqn q -> qblocks q' = qblocks q.
+  Proof.
+    intros (H1 & H2 & H3 & H4 & H5 & H6) Ht Hc. unfold qblocks. rewrite H2, H3, H4, H5, H6, Ht, Hc. reflexivity.
+  Qed.
+
+  (* the post-condition only looks at the identity of the query *)
+  Lemma sq_post_same_q ch q q0 cbs h r h' :
+    same_query q q0 -> qblocks q0 = qblocks q -> sq_post ch q0 cbs h r h' -> sq_post ch q cbs h r h'.
+  Proof.
+    intros (H1 & H2 & H3 & H4 & H5 & H6) Hb. unfold sq_post.
+    intros (A & B & C & D & Hm). split; [exact A|]. split; [exact B|]. split; [exact C|]. split; [exact D|].
+    destruct (r_query r) as [q'|].
+    - destruct Hm as (M1 & M2 & (S1 & S2 & S3 & S4 & S5 & S6) & M4 & M5 & M6 & M7 & M8 & M9).
+      rewrite H1 in *. rewrite Hb in M9.
+      split; [exact M1|]. split; [exact M2|]. split.
+      { unfold same_query. repeat split; congruence. }
+      split; [exact M4|]. split; [exact M5|]. split; [exact M6|]. split; [exact M7|]. split; [exact M8|]. exact M9.
+    - rewrite H1, H5, H6, Hb in Hm. exact Hm.
+  Qed.
+
+  (* a connection was (possibly) added between (ch, h) and (ch1, h1) *)
+  Lemma sq_post_lift ch ch1 q cbs h h1 r h' :
+    h_next h <= h_next h1 ->
+    ch_all ch1 = ch_all ch -> ch_byqid ch1 = ch_byqid ch -> ch_bytmo ch1 = ch_bytmo ch ->
+    length (ch_conns ch) <= length (ch_conns ch1) ->
+    (forall c, In c (ch_conns ch1) -> In c (ch_conns ch) \/ cn_queries c = []) ->
+    length (h_live h1) + 6 * length (ch_conns ch) = length (h_live h) + 6 * length (ch_conns ch1) ->
+    sq_post ch1 q cbs h1 r h' -> sq_post ch q cbs h r h'.
+  Proof.
+    intros Hn Ha Hb Ht Hl Hc Hled. unfold sq_post.
+    intros (A & B & C & D & Hm). split; [exact A|]. split; [lia|]. split; [lia|].
+    split.
+    { intros c Hin. apply D in Hin. destruct Hin as [Hin|Hin]; [apply Hc in Hin|]; tauto. }
+    rewrite Ha, Hb, Ht in Hm.
+    destruct (r_query r) as [q'|].
+    - destruct Hm as (M1 & M2 & M3 & M4 & M5 & M6 & M7 & M8 & M9).
+      repeat (split; [assumption|]). lia.
+    - destruct Hm as (M1 & M2 & M3 & M4 & M5 & M6).
+      repeat (split; [assumption|]). lia.
+  Qed.
+
+  Definition resend_ok (resend : chan -> query -> list Z -> M result) (q : query) (cbs : list Z) : Prop :=
+    forall ch' q' h0, sq_pre ch' q' h0 -> same_query q q' ->
+      q_try q' = S (q_try q) -> q_try q' < e_nservers E * e_tries E ->
+      exists r h', resend ch' q' cbs h0 = Ok (r, h') /\ sq_post ch' q' cbs h0 r h'.
+
+  Lemma same_query_refl q : same_query q q.
+  Proof. unfold same_query. auto 10. Qed.
+
+  Lemma requeue_spec resend ch q cbs h status :
+    resend_ok resend q cbs -> sq_pre ch q h -> status <> ARES_SUCCESS ->
+    exists r h', requeue_query E resend ch q status cbs h = Ok (r, h') /\ sq_post ch q cbs h r h'.
+  Proof.
+    intros Hres (Hok & Hq & Ht & Hc & Hn & Habs) Hst.
+    unfold requeue_query. rewrite (bindM_ok _ _ _ _ _ (remove_from_conn_detached ch q h Ht Hc)).
+    cbv beta iota.
+    assert (Hse : Z.eqb status ARES_SUCCESS = false) by (apply Z.eqb_neq; exact Hst).
+    rewrite Hse.
+    set (q2 := mkQuery (q_qid q) (q_blk q) (q_rec q) (q_name q) (q_all q) (q_qide q) (q_tmo q) (q_cqn q)
+                       (S (q_try q)) status (q_tcp q)).
+    assert (Hsame : same_query q q2) by (unfold same_query, q2; simpl; auto 10).
+    assert (Hblk : qblocks q2 = qblocks q) by reflexivity.
+    assert (Hq2 : q_inv q2 h) by (unfold q_inv; rewrite Hblk; exact Hq).
+    destruct (Nat.ltb (q_try q2) (e_nservers E * e_tries E) && negb (e_noretry E)) eqn:Eretry.
+    - apply andb_true_iff in Eretry as [Elt _]. apply Nat.ltb_lt in Elt.
+      destruct (Hres ch q2 h) as (r & h' & Hrun & Hpost).
+      + unfold sq_pre. split; [exact Hok|]. split; [exact Hq2|]. split; [exact Ht|]. split; [exact Hc|].
+        split; [exact Hn | exact Habs].
+      + exact Hsame.
+      + reflexivity.
+      + exact Elt.
+      + exists r, h'. split; [exact Hrun|]. eapply sq_post_same_q; eauto.
+    - cbn [q_err q2].
+      assert (Hst2 : (if Z.eqb status ARES_SUCCESS then ARES_ETIMEOUT else status) <> ARES_SUCCESS)
+        by (rewrite Hse; exact Hst).
+      destruct (ended_post ch q cbs h ch q2 (if Z.eqb status ARES_SUCCESS then ARES_ETIMEOUT else status) h)
+        as (r & h' & Hrun & Hrs & Hrq & Hpost); auto; try lia.
+      rewrite (bindM_ok _ _ _ _ _ Hrun). unfold ret.
+      eexists; eexists. split; [reflexivity|].
+      unfold sq_post in *. cbn [r_query r_cbs r_status r_chan].
+      destruct Hpost as (A & B & C & D & Hm). rewrite Hrq in *.
+      split; [exact A|]. split; [exact B|]. split; [exact C|]. split; [exact D|].
+      destruct Hm as (M1 & M2 & M3). split; [exact M1|]. split; [discriminate|]. exact M3.
+  Qed.
+
+  Lemma nth_error_upd_conn l i g c :
+    nth_error l i = Some c -> nth_error (upd_conn l i g) i = Some (g c).
+  Proof.
+    intros Hn. unfold upd_conn. rewrite Hn.
+    assert (Hi : i < length l) by (apply nth_error_Some; congruence).
+    rewrite nth_error_app2 by (rewrite firstn_length; lia).
+    rewrite firstn_length. replace (i - Nat.min i (length l)) with 0 by lia. reflexivity.
+  Qed.
+
+  (* one pass through the body of ares_send_query *)
+  Lemma send_query_step_spec resend ch q cbs h :
+    resend_ok resend q cbs -> sq_pre ch q h ->
+    exists r h', send_query_step f E resend ch q cbs h = Ok (r, h') /\ sq_post ch q cbs h r h'.
+  Proof.
+    intros Hres Hpre. pose proof Hpre as (Hok & Hq & Ht & Hc & Hn & Habs).
+    remember (send_query_step f E resend ch q cbs h) as R eqn:HR.
+    unfold send_query_step in HR.
+    assert (HnmS : ARES_ENOMEM <> ARES_SUCCESS) by discriminate.
+    destruct (e_server E (q_try q)); cbn [negb] in HR; cbv iota in HR.
+    2:{ destruct (ended_post ch q cbs h ch q ARES_ENOSERVER h) as (r & h' & Hrun & _ & _ & Hpost); side.
+        exists r, h'. split; [rewrite HR; exact Hrun | exact Hpost]. }
+    (* the connection: re-used or opened *)
+    assert (Hconn : exists ost oci ch1 h1,
+              (match e_reuse E (q_try q) with
+               | Some i => ret (ARES_SUCCESS, Some i, ch)
+               | None => open_connection f E ch (q_tcp q) (q_try q)
+               end) h = Ok ((ost, oci, ch1), h1) /\ heap_ok h1 /\ h_next h <= h_next h1 /\
+              ch_all ch1 = ch_all ch /\ ch_byqid ch1 = ch_byqid ch /\ ch_bytmo ch1 = ch_bytmo ch /\
+              length (ch_conns ch) <= length (ch_conns ch1) /\
+              (forall c, In c (ch_conns ch1) -> In c (ch_conns ch) \/ cn_queries c = []) /\
+              length (h_live h1) + 6 * length (ch_conns ch) = length (h_live h) + 6 * length (ch_conns ch1) /\
+              (forall x, In x (h_live h) -> In x (h_live h1)) /\
+              ((oci = None /\ ost <> ARES_SUCCESS) \/ (exists ci, oci = Some ci /\ ci < length (ch_conns ch1)))).
+    { destruct (e_reuse E (q_try q)) as [i|] eqn:Er.
+      - exists ARES_SUCCESS, (Some i), ch, h. unfold ret. split; [reflexivity|].
+        split; [exact Hok|]. split; [lia|]. split; [reflexivity|]. split; [reflexivity|]. split; [reflexivity|].
+        split; [lia|]. split; [intros c Hc'; left; exact Hc'|]. split; [lia|].
+        split; [auto|]. right. exists i. split; [reflexivity|]. apply Hreuse in Er. lia.
+      - destruct (open_connection_spec f E ch (q_tcp q) (q_try q) h Hok)
+          as (st & oci & ch1 & h1 & Hrun & Hok1 & Hnx & Ha & Hb & Hm & Hcase).
+        exists st, oci, ch1, h1. split; [exact Hrun|]. split; [exact Hok1|]. split; [exact Hnx|].
+        split; [exact Ha|]. split; [exact Hb|]. split; [exact Hm|].
+        destruct Hcase as [(Ho & Hst & Hcs & Hlv) | (c & Ho & Hst & Hcq & Hcs & new & Hnl & Hlv)].
+        + rewrite Hcs, Hlv. split; [lia|]. split; [intros c Hc'; left; exact Hc'|]. split; [lia|].
+          split; [auto|]. left. auto.
+        + rewrite Hcs, Hlv. rewrite app_length, Hnl.
+          destruct (q_tcp q).
+          * rewrite app_length. cbn [length]. split; [lia|]. split.
+            { intros c0 Hc0. apply in_app_or in Hc0. destruct Hc0 as [Hc0|[<-|[]]]; [left; exact Hc0 | right; exact Hcq]. }
+            split; [lia|]. split; [intros x Hx; apply in_or_app; right; exact Hx|].
+            right. eexists. split; [exact Ho|]. lia.
+          * cbn [length]. split; [lia|]. split.
+            { intros c0 [<-|Hc0]; [right; exact Hcq | left; exact Hc0]. }
+            split; [lia|]. split; [intros x Hx; apply in_or_app; right; exact Hx|].
+            right. eexists. split; [exact Ho|]. lia. }
+    destruct Hconn as (ost & oci & ch1 & h1 & Hrun1 & Hok1 & Hnx1 & Ha1 & Hb1 & Hm1 & Hlen1 & Hcs1 & Hled1 & Hsub1 & Hcase1).
+    rewrite (bindM_ok _ _ _ _ _ Hrun1) in HR. cbv beta iota in HR.
+    assert (Hq1 : q_inv q h1) by (eapply q_inv_mono; eauto).
+    assert (Hpre1 : sq_pre ch1 q h1).
+    { unfold sq_pre. split; [exact Hok1|]. split; [exact Hq1|]. split; [exact Ht|]. split; [exact Hc|].
+      split; [lia|]. rewrite Hm1. exact Habs. }
+    assert (Habs1 : ~ In (q_qid q) (ch_bytmo ch1)) by (rewrite Hm1; exact Habs).
+    destruct Hcase1 as [(Ho & Host) | (ci & Ho & Hci)]; subst oci.
+    - (* no connection *)
+      destruct (Z.eqb ost ARES_ECONNREFUSED || Z.eqb ost ARES_EBADFAMILY).
+      + destruct (requeue_spec resend ch1 q cbs h1 ost Hres Hpre1 Host) as (r & h' & Hrun & Hpost).
+        exists r, h'. split; [rewrite HR; exact Hrun|]. eapply sq_post_lift; eauto.
+      + destruct (ended_post ch1 q cbs h1 ch1 q ost h1) as (r & h' & Hrun & _ & _ & Hpost); side.
+        exists r, h'. split; [rewrite HR; exact Hrun|]. eapply sq_post_lift; eauto.
+    - (* ares_conn_query_write *)
+      unfold group in HR.
+      step_malloc_in HR.
+      2:{ (* the writer could not get its memory *)
+          destruct (ended_post ch1 q cbs h1 ch1 q ARES_ENOMEM (mkHeap (S (h_next h1)) (h_live h1)))
+            as (r & h' & Hrun & _ & _ & Hpost); side.
+          exists r, h'. split; [rewrite HR; exact Hrun|]. eapply sq_post_lift; eauto. }
+      (* temporaries released *)
+      unfold bindM at 1 in HR. unfold free at 1 in HR. cbn [h_live h_next memb remove_one] in HR.
+      rewrite Nat.eqb_refl in HR. cbn [orb] in HR. cbv beta iota in HR.
+      set (h2 := mkHeap (S (h_next h1)) (h_live h1)) in *.
+      assert (Hok2 : heap_ok h2) by (apply heap_ok_skip; exact Hok1).
+      assert (Hq2 : q_inv q h2) by exact Hq1.
+      assert (Hpre2 : sq_pre ch1 q h2) by (destruct Hpre1 as (_ & _ & P); split; [exact Hok2|]; split; [exact Hq2 | exact P]).
+      assert (Hlift2 : forall r h', sq_post ch1 q cbs h2 r h' -> sq_post ch q cbs h r h').
+      { intros r h' Hp. eapply sq_post_lift; eauto.
+        unfold sq_post in *. unfold h2 in Hp. cbn [h_next h_live] in Hp.
+        destruct Hp as (A & B & Hp). split; [exact A|]. split; [lia | exact Hp]. }
+      destruct (Hwrite (q_try q)) as [Hw1 Hw2].
+      destruct (Z.eqb_spec (e_write E (q_try q)) ARES_ENOMEM) as [Ewm|Ewm].
+      { destruct (ended_post ch1 q cbs h2 ch1 q ARES_ENOMEM h2) as (r & h' & Hrun & _ & _ & Hpost); side.
+        exists r, h'. split; [rewrite HR; exact Hrun | auto]. }
+      destruct (Z.eqb_spec (e_write E (q_try q)) ARES_ECONNREFUSED) as [Ewr|_]; [contradiction|].
+      destruct (Z.eqb_spec (e_write E (q_try q)) ARES_EBADFAMILY) as [Ewb|_]; [contradiction|].
+      cbn [orb] in HR. cbv iota in HR.
+      destruct (Z.eqb_spec (e_write E (q_try q)) ARES_SUCCESS) as [Ews|Ews]; cbn [negb] in HR; cbv iota in HR.
+      2:{ destruct (requeue_spec resend ch1 q cbs h2 (e_write E (q_try q)) Hres Hpre2 Ews) as (r & h' & Hrun & Hpost).
+          exists r, h'. split; [rewrite HR; exact Hrun | auto]. }
+      (* timeout list *)
+      rewrite Ht in HR. unfold free_opts at 1 in HR. cbn [cat_somes free_all] in HR.
+      unfold bindM at 1 in HR. unfold ret at 1 in HR. cbv beta iota in HR.
+      step_malloc_in HR.
+      2:{ set (h3 := mkHeap (S (h_next h2)) (h_live h2)) in *.
+          set (q1 := mkQuery (q_qid q) (q_blk q) (q_rec q) (q_name q) (q_all q) (q_qide q) None (q_cqn q)
+                             (q_try q) (q_err q) (q_tcp q)) in *.
+          assert (Hb1' : qblocks q1 = qblocks q) by (unfold qblocks, q1; cbn; rewrite Ht; reflexivity).
+          assert (Hq3 : q_inv q1 h3) by (unfold q_inv; rewrite Hb1'; exact Hq2).
+          destruct (ended_post ch1 q cbs h2 ch1 q1 ARES_ENOMEM h3) as (r & h' & Hrun & _ & _ & Hpost); side;
+            try (unfold h3; simpl; lia); try (rewrite Hb1'; unfold h3; simpl; lia).
+          exists r, h'. split; [rewrite HR; exact Hrun | auto]. }
+      (* connection's query list *)
+      rewrite Hc in HR. cbn [q_cqn option_map] in HR. unfold free_opts at 1 in HR. cbn [cat_somes free_all] in HR.
+      unfold bindM at 1 in HR. unfold ret at 1 in HR. cbv beta iota in HR.
+      set (tn := h_next h2) in *.
+      set (h3 := mkHeap (S tn) (tn :: h_live h2)) in *.
+      assert (Hok3 : heap_ok h3) by (apply heap_ok_push; exact Hok2).
+      assert (Htn : ~ In tn (qblocks q)).
+      { intros Hin. destruct Hq2 as [_ Hi]. apply Hi in Hin. exact (heap_ok_fresh h2 Hok2 Hin). }
+      step_malloc_in HR.
+      + (* registered *)
+        unfold h3 in HR. cbn [h_next h_live] in HR.
+        set (nb := S tn) in *.
+        unfold ret in HR. eexists; eexists. split; [exact HR|].
+        unfold sq_post. cbn [r_query r_cbs r_status r_chan ch_all ch_byqid ch_bytmo ch_conns h_next h_live].
+        set (q2 := mkQuery _ _ _ _ _ _ _ _ _ _ _).
+        assert (Hb2 : qblocks q2 = tn :: nb :: qblocks q).
+        { unfold qblocks, q2. cbn. rewrite Ht, Hc. reflexivity. }
+        split; [apply (heap_ok_push h3 Hok3)|]. split; [unfold nb, tn, h2; simpl; lia|].
+        rewrite upd_conn_length. split; [exact Hlen1|].
+        split; [intros c _; right; right; discriminate|].
+        split; [reflexivity|]. split; [reflexivity|].
+        split; [unfold same_query, q2; cbn; auto 10|].
+        split.
+        { unfold q_inv. rewrite Hb2. split.
+          - constructor.
+            + intros [Hx|Hx]; [unfold nb in Hx; lia | exact (Htn Hx)].
+            + constructor; [|exact (proj1 Hq2)].
+              intros Hin. destruct Hq2 as [_ Hi]. apply Hi in Hin.
+              destruct Hok2 as [_ Hwf]. apply Hwf in Hin. unfold nb, tn in Hin. lia.
+          - intros x [<-|[<-|Hx]]; simpl; [right; left; reflexivity | left; reflexivity|].
+            right. right. destruct Hq2 as [_ Hi]. apply Hi. exact Hx. }
+        split; [exact Ha1|]. split; [exact Hb1|].
+        split; [rewrite Hm1, (remove_z_notin _ _ Habs); reflexivity|].
+        split.
+        { destruct (nth_error (ch_conns ch1) ci) as [c0|] eqn:En0.
+          - exists tn, ci, nb. eexists. split; [reflexivity|]. split; [reflexivity|]. split.
+            + apply nth_error_upd_conn. exact En0.
+            + cbn [cn_queries]. apply in_or_app. right. left. reflexivity.
+          - exfalso. apply nth_error_None in En0. lia. }
+        rewrite Hb2. unfold h2. cbn [length h_live]. lia.
+      + (* the node for the connection's list could not be had *)
+        unfold h3 in HR. cbn [h_next h_live] in HR.
+        set (h4 := mkHeap (S (S tn)) (tn :: h_live h2)) in *.
+        set (qx := mkQuery (q_qid q) (q_blk q) (q_rec q) (q_name q) (q_all q) (q_qide q) (Some tn) None
+                           (q_try q) (q_err q) (q_tcp q)) in *.
+        assert (Hbx : qblocks qx = tn :: qblocks q).
+        { unfold qblocks, qx. cbn. rewrite Ht, Hc. reflexivity. }
+        destruct (ended_post ch1 q cbs h2
+                    (mkChan (ch_all ch1) (ch_byqid ch1) (q_qid q :: remove_z (q_qid q) (ch_bytmo ch1)) (ch_conns ch1) (ch_closed ch1))
+                    qx ARES_ENOMEM h4) as (r & h' & Hrun & _ & _ & Hpost); side;
+          try (unfold h4, tn, h2; simpl; lia);
+          try (match goal with |- heap_ok _ => apply (heap_ok_skip h3 Hok3) end);
+          try (right; exists tn; split; reflexivity);
+          try (rewrite Hbx; unfold h4, h2; cbn [length h_live ch_conns]; lia).
+        { unfold q_inv. rewrite Hbx. split.
+          - constructor; [exact Htn | exact (proj1 Hq2)].
+          - intros x [<-|Hx]; simpl; [left; reflexivity|]. right. destruct Hq2 as [_ Hi]. apply Hi. exact Hx. }
+        exists r, h'. split; [rewrite HR; exact Hrun | auto].
+  Qed.
+End SendQuery.
